@@ -450,7 +450,10 @@ ParseChecks(e) ==
          [] OTHER -> TRUE>>,
    \* (no listed property says what happens to text outside the UCI syntax, short of "no panic": a note, not a verdict)
    <<"x_text_outside_the_uci_syntax_is_refused",
-       e.what \in {"uci", "from_uci"} => (e.res = "ok" => UciParse(t).ok)>>}
+       e.what \in {"uci", "from_uci"} => (e.res = "ok" => UciParse(t).ok)>>,
+   \* (the SAN text syntax as transcribed in Notation!SanDescribe - with "0000" read as the null move: a note)
+   <<"x_san_text_syntax_as_transcribed",
+       e.what = "san" => ((e.res = "ok") <=> (SanDescribe(t).form # "none" \/ SanStrip(t) = Txt("0000")))>>}
 
 (***************************************************************************)
 (* C11 validation, C15 tables, C18 symmetry, C19 capacity, C20 types.      *)
